@@ -299,16 +299,19 @@ func (e *beaconEngine) onPut(n *bNode, seq int, round uint64, sig, prev []byte, 
 		e.rec.Violate("C03", "beacon-below-threshold", "k<t", "node %s stored round %d although fewer than %d members contribute", n.addr, round, e.sc.T)
 	}
 	if e.sc.NoSync && round >= 1 {
+		// distinct valid contributors other than the node itself that were handed to it
+		// before this Put; the node's own partial is inserted into its cache without
+		// crossing the transport, so it is granted (an honest node's own partial is valid)
 		n.mu.Lock()
-		cnt := 0
-		for _, s := range n.contrib[round] {
-			if s < seq {
+		cnt := 1
+		for idx, s := range n.contrib[round] {
+			if s < seq && idx != n.idx {
 				cnt++
 			}
 		}
 		n.mu.Unlock()
 		if cnt < e.sc.T {
-			e.rec.Violate("C03", "aggregated-below-threshold", fmt.Sprintf("have<%d", e.sc.T), "node %s stored round %d with %d distinct valid contributors delivered before (threshold %d)", n.addr, round, cnt, e.sc.T)
+			e.rec.Violate("C03", "aggregated-below-threshold", "below", "node %s stored round %d with %d distinct valid contributors (own partial included) before the Put, threshold %d", n.addr, round, cnt, e.sc.T)
 		}
 		e.rec.Count("probe:c03_counted_puts", 1)
 	}
@@ -348,6 +351,21 @@ func (e *beaconEngine) startNode(n *bNode, catchup bool) error {
 	}
 	n.gen++
 	st := &recStore{Store: base, n: n}
+	if e.sc.Backend == "memdb" && catchup {
+		// what the daemon does for the in-memory back-end before it builds the handler
+		// (storeCurrentFromPeerNetwork, exercised for real in E-daemon): start from the
+		// newest beacon a live peer holds
+		best := uint64(0)
+		for _, o := range e.liveHonest() {
+			if h, err := e.head(o); err == nil && h > best {
+				best = h
+			}
+		}
+		if best >= 1 {
+			_ = st.Put(context.Background(), &common.Beacon{Round: best, Signature: e.chain.Sig(best), PreviousSig: e.chain.Prev(best)})
+			e.rec.Count("probe:memdb_bootstrap", 1)
+		}
+	}
 	client := &SimClient{W: e.w, Self: n.addr}
 	client.TapPartial = func(to string, p *drand.PartialBeaconPacket) { e.onEmit(n, to, p) }
 	conf := &beacon.Config{
@@ -1011,6 +1029,9 @@ func (e *beaconEngine) finalChecks(healAt time.Time, gap uint64, res *RunResult)
 		})
 		if err != nil {
 			e.rec.Ev("scan_err", n.addr, "%v", err)
+		}
+		if sc.Backend == "memdb" && len(rounds) > 1 && rounds[0] == 0 && rounds[1] != 1 {
+			rounds = rounds[1:] // genesis plus the bootstrapped window
 		}
 		if len(rounds) > 0 {
 			heads[n.addr] = rounds[len(rounds)-1]
